@@ -14,8 +14,12 @@ from .. import core, tlc
 from ..core import Tally, maxdiff
 from ahrs.common import frames as FR
 
-LATS = [0.0, 30.0, -30.0, 60.0, -60.0, 89.9999, -89.9999, 90.0, -90.0, 1e-9, -1e-9, 45.0]
-LONS = [0.0, 90.0, -90.0, 180.0, -180.0, 11.57, -123.456]
+LATS = [0.0, 30.0, -30.0, 60.0, -60.0, 89.9999, -89.9999, 90.0, -90.0, 1e-9, -1e-9, 45.0,
+        # metres from the rotation axis (3 m, 1.7 m, 11 cm), and a few metres from the equatorial plane
+        89.99997, -89.999985, 89.999999, 3e-5]
+LONS = [0.0, 90.0, -90.0, 180.0, -180.0, 11.57, -123.456,
+        # metres from the antimeridian (5.5 m, 1.1 m, 11 cm) and from the prime meridian
+        179.99995, -179.99999, 179.999999, -2e-5, 135.0]
 HS = [-1e4, 0.0, 678.9, 1e4, 1e6]
 ORIGINS = [(48.137, 11.576, 519.0), (0.0, 0.0, 0.0), (90.0, 0.0, 100.0), (-33.9, -180.0, 1e4), (89.9999, 77.0, -50.0), (0.0, 180.0, 2e5), (-90.0, 45.0, 0.0)]
 OFFSETS = [(1.0, 2.0, 3.0), (-150.0, 80.5, 12.25), (1e3, -2e4, 5e2), (1e6, 1e6, -1e5), (0.0, 0.0, 10.0), (-3e5, 0.0, 0.0), (0.0, 1e-3, 0.0),
